@@ -23,7 +23,7 @@ import logging
 RULE = ("per transport (mrp, companion, http, rtsp): every interleaving of 2 requests with optional response / "
         "timeout per request and an optional unsolicited message; for 3 (thorough: also 4) requests every "
         "permutation of the responses x an unsolicited message at every position x a timeout of every request at "
-        "every position, in two send layouts (all first / staggered); plus random scripts with up to 5 requests "
+        "every position, in two send layouts (all first / staggered); plus 1500 (thorough: 8000) random scripts per transport with up to 5 requests "
         "(duplicates, unknown and not-yet-allocated identifiers, Companion XID burns) from ctx.rng. "
         "non-trivial = at least 2 requests outstanding at once and (a response out of send order, a timeout, or a "
         "message that answers no outstanding request); distinct = (transport, base, script)")
@@ -46,6 +46,7 @@ TRUSTED = [
     "harness.core.vloop virtual-time loop",
 ]
 
+PROPS_FILES = ["PyatvModel/Props/C03.lean", "PyatvModel/Props/C03Rtsp.lean"]
 KNOWN_SIG = "http-fifo:late-response-after-timeout"
 HTTP_WITNESS = "s,t0,s,rn:0"           # = PyatvModel.Props.C03.C03_http_counterexample
 TRANSPORTS = ["mrp", "companion", "http", "rtsp"]
@@ -795,7 +796,7 @@ def gen_cases(ctx):
             for evs in structured(transport, base, n, rng.fork("stagger", transport, n)):
                 cases.append((transport, base, evs))
         r2 = rng.fork("random", transport)
-        for _ in range(ctx.scale(300, 5000)):
+        for _ in range(ctx.scale(1500, 8000)):
             b = 0 if transport != "companion" else r2.randint(0, 65536)
             cases.append((transport, b, random_script(transport, b, r2)))
     return cases
